@@ -164,7 +164,11 @@ class _DocProxy:
         return f"_DocProxy({repr(self.doc)})"
 
     def __getitem__(self, key):
-        return self.doc[key]
+        value = self.doc[key]
+        if self.dry_run and isinstance(value, Mapping):
+            # Nested documents are modified in place by key-by-key strategies.
+            return type(self)(value, dry_run=True)
+        return value
 
     def __setitem__(self, key, value):
         logger.more(f"Set '{key}'='{value}'.")
@@ -177,7 +181,8 @@ class _DocProxy:
 
     def clear(self):
         """Clear proxy data."""
-        self.doc.clear()
+        if not self.dry_run:
+            self.doc.clear()
 
     def update(self, other):
         """Update proxy data with other."""
